@@ -196,8 +196,9 @@ def _mk_class(cls):
         c.require(Rr.f >= 0, Rr.f <= z["refrac_t"])  # class invariant 0 <= refrac <= refrac_t
         n.fields["_voltage__data"] = V
         n.fields["_refrac__data"] = Rr
-        lock = c.choice("refrac_lock", [True, False])
-        res = c.outcome(c.getattr(n, "forward"), I, refrac_lock=lock)
+        lockarg = c.choice("refrac_lock", [True, False, "default"])
+        lock = True if lockarg == "default" else lockarg  # documented default: voltages are locked while refractory
+        res = c.outcome(c.getattr(n, "forward"), I, **({} if lockarg == "default" else {"refrac_lock": lockarg}))
         c.expect_return(res)
         sp = res.value
         if kind == "linear_const":
@@ -300,12 +301,20 @@ def _mk_adaptive(cls):
         j = c.int("j")
         c.require(0 <= j, j < 2)
         sel = lambda a, b: z3.If(j.z == 0, a.z, b.z)  # noqa: E731
-        lock = c.choice("refrac_lock", [True, False])
-        adapt = c.choice("adapt", [True, False, None])
+        lockarg = c.choice("refrac_lock", [True, False, "default"])
+        lock = True if lockarg == "default" else lockarg
+        adapt = c.choice("adapt", [True, False, None, "default"])
         training = c.bool("training")
         n.fields["training"] = training
         SA = c.interp.torch_ns.get("sum")(A, dim=-1).f  # the (uninterpreted) sum over the adaptation axis
-        res = c.outcome(c.getattr(n, "forward"), I, adapt=adapt, refrac_lock=lock)
+        fkw = {}
+        if lockarg != "default":
+            fkw["refrac_lock"] = lockarg
+        if adapt != "default":
+            fkw["adapt"] = adapt
+        else:
+            adapt = None  # documented default: adapt follows the module's training mode
+        res = c.outcome(c.getattr(n, "forward"), I, **fkw)
         c.expect_return(res)
         sp = res.value
         tau, Rm = z["tc_membrane"], z["resistance"]
